@@ -5,6 +5,7 @@ import (
 	"os"
 	"os/exec"
 	"path/filepath"
+	"regexp"
 	"strings"
 	"sync"
 
@@ -17,20 +18,36 @@ import (
 // callback boundary the target directory cannot be opened as a bundle. Fetch/registry faults are
 // also replayed on the model as the world in which that answer is an error.
 
+var hexWord = regexp.MustCompile(`x(?:[0-9a-f]{2})+`)
+
+// unhexWords: an event of the recorded trace with its hex-encoded keys decoded (for messages)
+func unhexWords(s string) string {
+	return hexWord.ReplaceAllStringFunc(s, func(w string) string {
+		if d, ok := UnX(w); ok {
+			return d
+		}
+		return w
+	})
+}
+
 func copyDir(src, dst string) error {
 	return exec.Command("cp", "-a", src, dst).Run()
 }
 
 func init() {
 	lanes["builder-faults"] = func(cfg *Config, rep *Report) {
-		rep.Rule = "error-free scripted worlds (as in the builder lane) x every call index of the fault-free build failing in turn (fetch, version list, source address, finder), thorough: also pairs; at every callback boundary the target directory is copied and OpenDir'ed; non-trivial = every case (a fault is injected); distinct by (world, ops, fault position)"
+		rep.Rule = "error-free scripted worlds (as in the builder lane) x every call index of the fault-free build failing in turn (fetch, version list, source address, finder), thorough: also pairs; per world one more fault: the target directory is renamed away during a finder call that is followed by a package download (trace bracketing C14, error diagnostic / refusal / no bundle C12); at every callback boundary the target directory is copied and OpenDir'ed; non-trivial = every case (a fault is injected); distinct by (world, ops, fault position)"
 		r := NewRng(cfg.Seed)
 		type job struct {
 			c      *bCase
 			failAt int
 			total  int
+			// rmAt: not a failing call but the fault "the target directory disappears": during the rmAt-th
+			// callback the builder's target directory is renamed away (failAt is 0 then)
+			rmAt int
 		}
-		var jobs []job
+		var jobs, rmJobs []job
+		nWorlds := 0
 		for len(jobs) < cfg.N*8 {
 			w, ops := genBWorld(r, false)
 			c := &bCase{World: w, Ops: ops}
@@ -46,10 +63,42 @@ func init() {
 			for k := 1; k <= env.calls; k++ {
 				jobs = append(jobs, job{c: c, failAt: k, total: env.calls})
 			}
+			// the target directory disappears during a finder call that is followed by a package download
+			// (the first such call for every other world, the last one for the others): the download's
+			// temporary directory cannot be created (seed C14-g: a start event without its failure event)
+			{
+				var cands []int
+				k := 0
+				for li, ev := range env.log {
+					kind := ev[:2]
+					if kind != "fc" && kind != "vc" && kind != "sc" && kind != "an" {
+						continue
+					}
+					k++
+					if kind != "an" {
+						continue
+					}
+					for _, later := range env.log[li+1:] {
+						if strings.HasPrefix(later, "fs:") {
+							cands = append(cands, k)
+							break
+						}
+					}
+				}
+				if len(cands) > 0 {
+					pick := cands[0]
+					if nWorlds%2 == 1 {
+						pick = cands[len(cands)-1]
+					}
+					rmJobs = append(rmJobs, job{c: c, rmAt: pick, total: env.calls})
+				}
+				nWorlds++
+			}
 			if len(jobs) > cfg.N*8 {
 				break
 			}
 		}
+		jobs = append(jobs, rmJobs...)
 		// exact replay (-case): the recorded world, Add calls and failing call index take an extra last
 		// slot and run first, alone
 		replayIdx := -1
@@ -58,16 +107,18 @@ func init() {
 				bCase
 				FailCall int `json:"fail_call"`
 				Of       int `json:"of"`
+				// RemoveTargetAt: the fault "the target directory disappears" during that callback
+				RemoveTargetAt int `json:"remove_target_at"`
 			}
 			if !loadReplayInput(cfg, "builder-faults", &rin) {
 				replayMissing(cfg, rep, "builder-faults")
 			} else if why := checkBCase(&rin.bCase); why != "" {
 				rep.ReplayNote("refused: " + why)
-			} else if rin.FailCall <= 0 {
-				rep.ReplayNote("the recorded input names no failing call (fail_call)")
+			} else if rin.FailCall <= 0 && rin.RemoveTargetAt <= 0 {
+				rep.ReplayNote("the recorded input names no failing call (fail_call) and no callback at which the target directory disappears (remove_target_at)")
 			} else {
 				c := rin.bCase
-				jobs = append(jobs, job{c: &c, failAt: rin.FailCall, total: rin.Of})
+				jobs = append(jobs, job{c: &c, failAt: rin.FailCall, rmAt: rin.RemoveTargetAt, total: rin.Of})
 				replayIdx = len(jobs) - 1
 			}
 		}
@@ -81,8 +132,12 @@ func init() {
 				target := filepath.Join(cfg.Work, fmt.Sprintf("bf%06d", i))
 				os.MkdirAll(target, 0755)
 				defer os.RemoveAll(target)
+				defer os.RemoveAll(target + ".gone")
 				env := newEnv(j.c.World)
 				env.failAt = j.failAt
+				if j.rmAt > 0 && cfg.Work != "" && within(cfg.Work, target) {
+					env.rmTargetAt, env.rmTarget = j.rmAt, target
+				}
 				var failedKind, failedKey string
 				nb := 0
 				openable := ""
@@ -101,6 +156,66 @@ func init() {
 					}
 				}
 				run := runBuild(j.c.World, j.c.Ops, target, env)
+				if j.rmAt > 0 {
+					// ---- the target directory disappeared during callback rmAt ----
+					in := map[string]interface{}{"world": j.c.World, "ops": j.c.Ops, "remove_target_at": j.rmAt, "of": j.total}
+					rep.Case(fmt.Sprintf("%p|rm%d", j.c, j.rmAt), true, map[string]interface{}{"ops": j.c.Ops, "remove_target_at": j.rmAt, "of": j.total, "results": run.results})
+					fail := func(what string) {
+						rep.AddOracle(OracleFailure{Property: "C12", Lane: "builder-faults", What: what, Input: in, ReqIdx: 0})
+					}
+					if run.timeout {
+						fail("build whose target directory disappears did not terminate")
+						return
+					}
+					cnt, at, during := 0, -1, ""
+					for li, ev := range env.log {
+						k := ev[:2]
+						if k == "fc" || k == "vc" || k == "sc" || k == "an" {
+							cnt++
+							if cnt == j.rmAt {
+								at, during = li, ev
+							}
+						}
+					}
+					if at < 0 {
+						rep.Count("fault:not-reached")
+						return
+					}
+					rep.Count("fault:target-directory-disappears")
+					startedAfter := ""
+					for _, ev := range env.log[at+1:] {
+						if strings.HasPrefix(ev, "fs:") {
+							startedAfter, _ = UnX(ev[3:])
+							break
+						}
+					}
+					if startedAfter != "" {
+						rep.Count("fault:target-directory-disappears:download-afterwards")
+						if !hasErrorDiag(run.results) {
+							fail(fmt.Sprintf("the target directory was renamed away during callback %d (%s) and the download of %s was started afterwards, but no error diagnostic was returned: %s", j.rmAt, unhexWords(during), startedAfter, strings.Join(run.results, "|")))
+						}
+						if !run.poisoned {
+							fail("Close did not refuse after a build in which a download failed (the target directory had disappeared)")
+						}
+					}
+					sawErr := false
+					for _, res := range run.results {
+						if sawErr && res != "refused" {
+							fail("an Add* call after a failed build was not refused: " + strings.Join(run.results, "|"))
+						}
+						if hasErrorDiag([]string{res}) {
+							sawErr = true
+						}
+					}
+					if run.bundle != nil {
+						fail("Close returned a bundle although the target directory no longer exists")
+					}
+					// C14: every start event is followed by exactly one matching success or failure event
+					for _, p := range checkTrace(env.log, false) {
+						rep.AddOracle(OracleFailure{Property: "C14", Lane: "builder-faults", What: fmt.Sprintf("%s (the target directory was renamed away during callback %d, %s)", unhexWords(p), j.rmAt, unhexWords(during)), Input: in, ReqIdx: 0})
+					}
+					return
+				}
 				// which call failed?
 				cnt := 0
 				for _, ev := range env.log {
